@@ -340,3 +340,33 @@ func ZZFnCalls(p parser.Program) []*parser.FnCall {
 	}
 	return out
 }
+
+// ZZC16After: analysing one script leaves nothing behind that changes the analysis of
+// the next one in the same process: the valid script `second` still gets no
+// error-severity diagnostic after `first` (any text) has been analysed, and exactly
+// the diagnostics it gets on its own.
+func ZZC16After(first, second string) {
+	alone := CheckSource(second)
+	var aloneMsgs []string
+	for _, d := range alone.Diagnostics {
+		aloneMsgs = append(aloneMsgs, d.Kind.Message())
+	}
+	r1 := CheckSource(first)
+	for _, d := range r1.Diagnostics {
+		_ = d.Kind.Message()
+	}
+	res := CheckSource(second)
+	for _, d := range res.Diagnostics {
+		if d.Kind.Severity() == ErrorSeverity {
+			zzvrt.Note("diagnostic: " + d.Kind.Message())
+		}
+		zzvrt.Assert(d.Kind.Severity() != ErrorSeverity, "C16:valid-script-has-no-error-after-another-analysis")
+	}
+	zzvrt.Assert(len(res.Diagnostics) == len(aloneMsgs), "C16:analysis-independent-of-earlier-analyses")
+	if len(res.Diagnostics) == len(aloneMsgs) {
+		for i, d := range res.Diagnostics {
+			zzvrt.Assert(d.Kind.Message() == aloneMsgs[i], "C16:analysis-independent-of-earlier-analyses")
+		}
+	}
+	zzvrt.Reach("c16-after-end")
+}
